@@ -26,6 +26,7 @@ def apply_ops(sections, ops):
     for kind, sec, key, val in ops:
         if kind != 'add': continue
         i = find(sec)
+        key = key.strip()        # a key written into a file cannot start with blanks (that would be a continuation line)
         if i is None: secs.append((sec, [(key, val)])); continue
         if any(norm(k) == norm(key) for k, v in secs[i][1]): return None, 'duplicate'
         secs[i][1].append((key, val))
@@ -62,7 +63,11 @@ def check_case(rep, case, name):
     # API route
     from atsim.potentials.config import ConfigParser
     try:
-        ov = [ConfigParserOverrideTuple(s, k, v if kd == 'override' else None) for kd, s, k, v in ops if kd in ('override', 'remove')]
+        # the command line keeps one operation per item (the last one given): the API is driven with that merged list
+        merged = {}
+        for kd, s_, k, v in ops:
+            if kd in ('override', 'remove'): merged[(s_, norm(k))] = (kd, s_, k, v)
+        ov = [ConfigParserOverrideTuple(s_, k, v if kd == 'override' else None) for kd, s_, k, v in merged.values()]
         ad = [ConfigParserOverrideTuple(s, k, v) for kd, s, k, v in ops if kd == 'add']
         got2 = tabulate_text(None, ConfigParser(io.StringIO(text(sections)), overrides=ov, additional=ad))
         if got2 != want: rep.dev(name, dict(case, route='api'), 'API output differs from the hand-edited file', 'same bytes'); return
@@ -103,8 +108,10 @@ def gen_case(rng):
     for o in ops:
         nk = (o[1], norm(o[2]))
         if o[0] in ('override', 'remove'):
-            if nk in seen and seen[nk] != o[2]: continue
-            seen[nk] = o[2]
+            # one item, one kind of operation, one spelling per command line (override AND remove of one item is under-specified:
+            # the command line applies removals after overrides whatever the order they were given in)
+            if nk in seen and seen[nk] != (o[0], o[2]): continue
+            seen[nk] = (o[0], o[2])
         ops2.append(o)
     return dict(seed=seed, ops=ops2, variables=rng.random() < 0.3)
 
